@@ -57,3 +57,10 @@ pub fn handler(_c: C, _d: D, _c2: C2, _d2: D2) -> Response {
 pub fn handler_unsolvable(_c2: C2, _d2: D2) -> Response {
     Response::ok()
 }
+
+/// A second handler over the very same unsolvable diamond: every diagnostic of the first handler's
+/// call graph is reported again, word for word, for this one.
+#[pavex::get(path = "/one-diamond-again", id = "OD_HANDLER_AGAIN")]
+pub fn handler_unsolvable_again(_c2: C2, _d2: D2) -> Response {
+    Response::ok()
+}
